@@ -490,3 +490,174 @@ theorem mem_rowOf_faceFace {nf w : Nat} {ef ff : Table} (h : makeFaceFace nf w e
   · intro hmem; exact ⟨f, g, ⟨hmem, rfl⟩, rfl⟩
 
 end Ems.Mesh
+
+namespace Ems.Mesh
+
+/-! ### the derived chain: face-edge → edge-face → face-face, in terms of node pairs -/
+
+theorem mem_compress {α} {row : List (Option α)} {a : α} : a ∈ compress row ↔ some a ∈ row := by
+  simp [compress, List.mem_filterMap]
+
+/-- with a duplicate-free edge table, edge `k` is in the derived face-edge row of face `i`
+iff the node pair of `k` is one of the consecutive pairs of that face -/
+theorem mem_rowOf_faceEdge {w : Nat} {en : List Pair} {faces : List (List Int)} {fe : Table}
+    (hnd : (en.map normPair).Nodup)
+    (hcover : ∀ f ∈ faces, ∀ p ∈ facePairs f, ∃ e ∈ en, normPair e = normPair p)
+    (hw : ∀ f ∈ faces, f.length ≤ w)
+    (hfe : makeFaceEdge w en faces = .ok fe) {i : Nat} (hi : i < faces.length) {k : Nat} :
+    (k : Int) ∈ rowOf fe i ↔
+      ∃ hk : k < en.length, ∃ p ∈ facePairs faces[i], normPair p = normPair en[k] := by
+  obtain ⟨fe', hfe', _, hspec⟩ := makeFaceEdge_spec w en faces hcover hw
+  rw [hfe] at hfe'
+  have := Except.ok.inj hfe'
+  subst this
+  obtain ⟨row, hrow, hlen, hin, hout⟩ := hspec i hi
+  simp only [rowOf, hrow, mem_compress]
+  constructor
+  · intro hmem
+    obtain ⟨c, hc, hget⟩ := List.getElem_of_mem hmem
+    by_cases hcl : c < (facePairs faces[i]).length
+    · obtain ⟨k', hk', hlt, hn⟩ := hin c hcl
+      rw [List.getElem?_eq_getElem hc, hget] at hk'
+      have hkk : k = k' := by
+        have := Option.some.inj (Option.some.inj hk')
+        omega
+      subst hkk
+      exact ⟨hlt, (facePairs faces[i])[c], List.getElem_mem _, hn.symm⟩
+    · have hcw : c < w := by omega
+      have := hout c (by simpa [length_facePairs] using hcl) hcw
+      rw [List.getElem?_eq_getElem hc, hget] at this
+      simp at this
+  · rintro ⟨hk, p, hp, hn⟩
+    obtain ⟨c, hc, rfl⟩ := List.getElem_of_mem hp
+    obtain ⟨k', hk', hlt, hn'⟩ := hin c hc
+    have h1 : (en.map normPair)[k]'(by simpa) = (en.map normPair)[k']'(by simpa) := by
+      simp [← hn, hn']
+    have hkk : k = k' := (List.getElem_inj hnd).mp h1
+    subst hkk
+    exact List.mem_of_getElem? hk'
+
+theorem getElem?_map_compress (fe : Table) (i : Nat) :
+    (fe.map compress)[i]? = some (rowOf fe i) ∨ ((fe.map compress)[i]? = none ∧ fe[i]? = none) := by
+  simp only [List.getElem?_map, rowOf]
+  cases fe[i]? <;> simp
+
+/-- **the derived tables say what the property says, in terms of node pairs**: with a
+duplicate-free edge table `en` that contains every consecutive node pair of the faces,
+whenever the three derivations return tables,
+* edge `k` lists face `i` iff the node pair of `k` is a consecutive pair of `i`;
+* face `i` lists face `j` iff they are different faces with a common (undirected) node pair. -/
+theorem derived_chain_spec {w : Nat} {en : List Pair} {faces : List (List Int)} {fe ef ff : Table}
+    (hnd : (en.map normPair).Nodup)
+    (hcover : ∀ f ∈ faces, ∀ p ∈ facePairs f, ∃ e ∈ en, normPair e = normPair p)
+    (hw : ∀ f ∈ faces, f.length ≤ w)
+    (hfe : makeFaceEdge w en faces = .ok fe)
+    (hef : makeEdgeFace en.length (fe.map compress) = .ok ef)
+    (hff : makeFaceFace faces.length w ef = .ok ff) :
+    (∀ k (hk : k < en.length) i (hi : i < faces.length),
+        (i : Int) ∈ rowOf ef k ↔ ∃ p ∈ facePairs faces[i], normPair p = normPair en[k]) ∧
+    (∀ i (hi : i < faces.length) j (hj : j < faces.length),
+        (j : Int) ∈ rowOf ff i ↔
+          i ≠ j ∧ ∃ p ∈ facePairs faces[i], ∃ q ∈ facePairs faces[j], normPair p = normPair q) := by
+  have hfelen : fe.length = faces.length := by
+    obtain ⟨fe', hfe', hl, _⟩ := makeFaceEdge_spec w en faces hcover hw
+    rw [hfe] at hfe'
+    rw [Except.ok.inj hfe']
+    exact hl
+  obtain ⟨_, hman, heflen, hefspec⟩ := makeEdgeFace_ok hef
+  -- face i is an incidence of edge k iff k's node pair is a pair of face i
+  have hinc : ∀ k (hk : k < en.length) i (hi : i < faces.length),
+      i ∈ incidences (fe.map compress) (k : Int) ↔ ∃ p ∈ facePairs faces[i], normPair p = normPair en[k] := by
+    intro k hk i hi
+    rw [mem_incidences]
+    rcases getElem?_map_compress fe i with h | ⟨_, h⟩
+    · rw [h]
+      simp only [Option.some.injEq, exists_eq_left']
+      rw [mem_rowOf_faceEdge hnd hcover hw hfe hi]
+      exact ⟨fun ⟨_, h⟩ => h, fun h => ⟨hk, h⟩⟩
+    · have : i < fe.length := by omega
+      simp [List.getElem?_eq_getElem this] at h
+  have hinc_lt : ∀ k i, i ∈ incidences (fe.map compress) (k : Int) → i < faces.length := by
+    intro k i h
+    obtain ⟨row, hrow, _⟩ := mem_incidences.mp h
+    have : i < (fe.map compress).length := (List.getElem?_eq_some_iff.mp hrow).1
+    simpa [hfelen] using this
+  have hef_row : ∀ k (hk : k < en.length) (i : Nat), (i : Int) ∈ rowOf ef k ↔ i ∈ incidences (fe.map compress) (k : Int) := by
+    intro k hk i
+    obtain ⟨row, hrow, _, hc⟩ := hefspec k hk
+    simp only [rowOf, hrow, hc]
+    exact mem_map_ofNat
+  refine ⟨fun k hk i hi => (hef_row k hk i).trans (hinc k hk i hi), ?_⟩
+  intro i hi j hj
+  rw [mem_rowOf_faceFace hff hi, mem_adjEvents]
+  have hdeg := (makeFaceFace_ok hff).1
+  constructor
+  · rintro ⟨row, hrow, hshape⟩
+    obtain ⟨k, hk, rfl⟩ := List.getElem_of_mem hrow
+    have hk' : k < en.length := by omega
+    have hne : i ≠ j := by
+      intro h
+      have hmem : ((i : Int), (j : Int)) ∈ adjEvents ef := mem_adjEvents.mpr ⟨ef[k], hrow, hshape⟩
+      have := hdeg _ hmem
+      simp [h] at this
+    have hboth : (i : Int) ∈ rowOf ef k ∧ (j : Int) ∈ rowOf ef k := by
+      simp only [rowOf, List.getElem?_eq_getElem hk, mem_compress]
+      rcases hshape with h | h <;> simp [h]
+    obtain ⟨p, hp, hpn⟩ := ((hef_row k hk' i).trans (hinc k hk' i hi)).mp hboth.1
+    obtain ⟨q, hq, hqn⟩ := ((hef_row k hk' j).trans (hinc k hk' j hj)).mp hboth.2
+    exact ⟨hne, p, hp, q, hq, hpn.trans hqn.symm⟩
+  · rintro ⟨hne, p, hp, q, hq, hpq⟩
+    obtain ⟨e, he, hen⟩ := hcover faces[i] (List.getElem_mem _) p hp
+    obtain ⟨k, hk, rfl⟩ := List.getElem_of_mem he
+    have hi_in : i ∈ incidences (fe.map compress) (k : Int) := (hinc k hk i hi).mpr ⟨p, hp, hen.symm⟩
+    have hj_in : j ∈ incidences (fe.map compress) (k : Int) :=
+      (hinc k hk j hj).mpr ⟨q, hq, hpq.symm.trans hen.symm⟩
+    have hlen := hman k hk
+    obtain ⟨row, hrow, hrl, hc⟩ := hefspec k hk
+    -- a list of length ≤ 2 containing two different values is one of the two orderings
+    have hlist : incidences (fe.map compress) (k : Int) = [i, j] ∨ incidences (fe.map compress) (k : Int) = [j, i] := by
+      generalize incidences (fe.map compress) (k : Int) = l at hi_in hj_in hlen
+      match l, hlen with
+      | [], _ => simp at hi_in
+      | [a], _ =>
+        simp only [List.mem_singleton] at hi_in hj_in
+        exact absurd (hi_in.trans hj_in.symm) hne
+      | [a, b], _ =>
+        simp only [List.mem_cons, List.not_mem_nil, or_false] at hi_in hj_in
+        rcases hi_in with rfl | rfl <;> rcases hj_in with rfl | rfl
+        · exact absurd rfl hne
+        · exact Or.inl rfl
+        · exact Or.inr rfl
+        · exact absurd rfl hne
+      | _ :: _ :: _ :: _, h => simp at h; omega
+    -- the stored row is the padded list: exactly two cells
+    have hrow2 : row = (incidences (fe.map compress) (k : Int)).map (fun n => some (Int.ofNat n)) := by
+      have hl2 : (incidences (fe.map compress) (k : Int)).length = 2 := by
+        rcases hlist with h | h <;> simp [h]
+      have hfull : ∀ c ∈ row, c ≠ none := by
+        intro c hcmem hcn
+        subst hcn
+        have h1 : (compress row).length = 2 := by rw [hc]; simp [hl2]
+        have h2 : (compress row).length < row.length := by
+          unfold compress
+          exact List.length_filterMap_lt_length_iff_exists.mpr ⟨none, hcmem, rfl⟩
+        omega
+      have : row = (compress row).map some := by
+        clear hrow hc
+        induction row with
+        | nil => rfl
+        | cons x xs ih =>
+          cases x with
+          | none => exact absurd rfl (hfull none (by simp))
+          | some v =>
+            simp only [compress, List.filterMap_cons_some (show id (some v) = some v from rfl), List.map_cons]
+            congr 1
+            exact ih (by simp at hrl ⊢; omega) (fun c hc => hfull c (by simp [hc]))
+      rw [this, hc, List.map_map]
+      rfl
+    refine ⟨row, List.mem_of_getElem? hrow, ?_⟩
+    rcases hlist with h | h
+    · left; rw [hrow2, h]; rfl
+    · right; rw [hrow2, h]; rfl
+
+end Ems.Mesh
